@@ -466,7 +466,7 @@ def _aliases(val, privs):
             return True
         if isinstance(val, numpy.ndarray) and isinstance(m, numpy.ndarray):
             try:
-                if numpy.may_share_memory(val, m):
+                if numpy.may_share_memory(val.view(numpy.ndarray), m.view(numpy.ndarray)):
                     return True
             except Exception:
                 return True
